@@ -252,24 +252,59 @@ def check_interpretations(rep: Report, ix):
 
 
 def check_gaussian_noise(rep: Report, ix):
+    """"the normal numbers are exactly the successive draws of the generator given to the equation": the noise closure
+    of the numpy back-end is interpreted (pdelint/npsem.py) with a recording generator for fields of two shapes and
+    called several times: call k must return exactly the numbers of the k-th request, every request must be for one
+    array of the shape of the field data, and after k calls the generator has been advanced by k * data.size numbers
+    (drawing ahead in blocks leaves the generator of the equation past the numbers actually used)."""
+    import numpy as np
+
+    from .. import npsem as ns
+
     f = ix.func("pde/backends/numpy/backend.py", "NumpyBackend.make_gaussian_noise")
     rep.saw("functions", f.ref)
-    it = Interp(ix)
-    calls = []
-    rng = Model("rng", {"standard_normal": lambda *a, **k: calls.append(("standard_normal", a, k)) or sp.Symbol("xi"), "normal": lambda *a, **k: calls.append(("normal", a, k)) or sp.Symbol("xi")}, strict=True)
-    shape = (sp.Symbol("n_comp"), sp.Symbol("N0"))
-    field = Model("field", {"data": Model("data", {"shape": shape})})
-    be = Model("backend", {}, cls=ix.cls("pde/backends/numpy/backend.py", "NumpyBackend"))
-    try:
-        fn = it.call(it.make_closure(f, it.module_env(f.module), bound_self=be), (field,), {"rng": rng})
-        it.call(fn, (), {})
-    except (Unsupported, RaisedInCode) as e:
-        rep.violation("C13.gaussian-noise", f"{f.ref}::gaussian_noise::draw", f"numpy gaussian noise does not draw from the generator passed in: {e}")
-        return
-    ok = len(calls) == 1 and calls[0][0] == "standard_normal" and (calls[0][1] == (shape,) or calls[0][2].get("size") == shape)
-    rep.oblige("numpy gaussian_noise = rng.standard_normal(data shape), one draw per call", ok, str(calls))
-    if not ok:
-        rep.violation("C13.gaussian-noise", f"{f.ref}::gaussian_noise::draw", f"numpy gaussian noise performs {calls}; documented: one rng.standard_normal(field.data.shape) on the generator given")
+    # module-level constants the function may refer to
+    mod_consts = {}
+    for st in f.module.tree.body if hasattr(f.module, "tree") else []:
+        if isinstance(st, ast.Assign) and len(st.targets) == 1 and isinstance(st.targets[0], ast.Name) and isinstance(st.value, ast.Constant):
+            mod_consts[st.targets[0].id] = st.value.value
+    bad: dict[str, str] = {}
+    for shape in ((2, 3), (5,)):
+        log: list = []
+        drawn = [0]
+
+        def standard_normal(size=None, **kw):
+            shp = () if size is None else (tuple(size) if isinstance(size, (tuple, list)) else (int(size),))
+            n = int(np.prod(shp)) if shp else 1
+            out = np.empty(n, dtype=object)
+            for q in range(n):
+                out[q] = sp.Symbol(f"xi_{drawn[0] + q}")
+            drawn[0] += n
+            log.append(shp)
+            return out.reshape(shp) if shp else out[0]
+
+        rng = ns.Stub("rng", standard_normal=standard_normal)
+        data = ns.sym_array("d", shape)
+        field = ns.Stub("field", data=data, grid=ns.Stub("grid", shape=shape[-1:], num_axes=1))
+        sem = ns.NpSem(where=f.ref)
+        scope = dict(mod_consts)
+        scope["np"] = ns.NP
+        try:
+            fn = sem.run_function(f.node, scope, args=(ns.Stub("backend"), field), kwargs={"rng": rng})
+            results = [fn() for _ in range(3)]
+        except ns.Raised as e:
+            bad.setdefault("raises", f"data shape {shape}: ends in `{e}`")
+            continue
+        size = int(np.prod(shape))
+        for k, r in enumerate(results):
+            want = np.array([sp.Symbol(f"xi_{k * size + q}") for q in range(size)], dtype=object).reshape(shape)
+            if not isinstance(r, np.ndarray) or r.shape != tuple(shape) or ns.arrays_equal(r, want):
+                bad.setdefault("numbers", f"data shape {shape}: call {k} does not return the numbers {k * size}..{(k + 1) * size - 1} of the generator's stream")
+        if drawn[0] != 3 * size:
+            bad.setdefault("advanced", f"data shape {shape}: after 3 calls the generator has been advanced by {drawn[0]} numbers instead of {3 * size} (requests {log}): numbers drawn ahead are lost when the run ends, so a continued run / a second run with the same generator does not continue the stream")
+    rep.oblige("numpy gaussian_noise: call k returns the k-th block of the generator's stream, nothing is drawn ahead", not bad, bad)
+    for role, msg in bad.items():
+        rep.violation("C13.gaussian-noise", f"{f.ref}::gaussian_noise::{role}", f"numpy gaussian noise: {msg}", line=f.node.lineno)
 
 
 def check_noise_variance(rep: Report, ix):
